@@ -19,7 +19,12 @@ Recognised (everything else is `.unknown`; `try` is only accepted without handle
   `self._test_tags = _merge_tags(self._test_tags, (<new>, <gone>))` and the same for `_global_tags`;
   `if self._any_tags(self._global_tags):`, `if self._any_tags(self._test_tags):` (no else), `if self._in_test: … else: …`.
 Harmless rewrites that leave the term unchanged: renamed locals / parameters; where the `now` binding stands; the order of
-adjacent forwarder-local assignments that do not read or write the same attribute (they are emitted in a canonical order).
+adjacent forwarder-local assignments that do not read or write the same attribute (they are emitted in a canonical order);
+a local alias `<name> = self.<attr>` of an attribute that the class assigns in `__init__` only, bound once at the top level of
+the method before its first use (the alias is resolved, the binding dropped); a negated condition with both branches
+(`if not c: B else: A` is read as `if c: A else: B`); a call `self._helper()` of a private method of the same class that takes no
+arguments and whose body is straight-line (expression statements and assignments only) is replaced by that body, once (the body
+is not inlined further).
 Besides the skeletons: the table "which target method each add* method forwards", and three facts about helper code
 (`_any_tags`, `TestResult._now`, `TestResult.startTestRun` clearing the clock).
 """
@@ -49,10 +54,93 @@ def body_of(fn):
 
 
 class Ctx:
-    def __init__(self, fn):
+    def __init__(self, fn, cls=None):
         a = [x.arg for x in fn.args.args][1:]
         self.params = a
         self.now = set()
+        self.cls = cls          # the ClassDef the method belongs to (for inlining private helpers)
+        self.inlining = False
+
+
+def class_of(tree, name):
+    for node in ast.walk(tree):
+        if isinstance(node, ast.ClassDef) and node.name == name:
+            return node
+    return None
+
+
+def init_only_attrs(cls):
+    """attributes `self.<a>` that the class assigns in __init__ and nowhere else (so an alias of them is a pure binding)"""
+    inside, outside = set(), set()
+    for f in cls.body:
+        if isinstance(f, ast.FunctionDef):
+            for n in ast.walk(f):
+                targets = []
+                if isinstance(n, ast.Assign):
+                    targets = n.targets
+                elif isinstance(n, (ast.AugAssign, ast.AnnAssign)):
+                    targets = [n.target]
+                elif isinstance(n, ast.Delete):
+                    targets = n.targets
+                for t in targets:
+                    for x in ast.walk(t):
+                        if isinstance(x, ast.Attribute) and isinstance(x.value, ast.Name) and x.value.id == 'self':
+                            (inside if f.name == '__init__' else outside).add(x.attr)
+    return inside - outside
+
+
+class _Subst(ast.NodeTransformer):
+    def __init__(self, name, attr):
+        self.name, self.attr = name, attr
+
+    def visit_Name(self, node):
+        if node.id == self.name and isinstance(node.ctx, ast.Load):
+            return ast.copy_location(ast.Attribute(value=ast.Name(id='self', ctx=ast.Load()), attr=self.attr, ctx=ast.Load()), node)
+        return node
+
+
+def resolve_aliases(fn, cls):
+    """drop top-level bindings `<name> = self.<attr>` (attr assigned in __init__ only, name bound exactly once in the method and not
+    used before the binding) and replace the uses of <name> by `self.<attr>`; returns the new statement list"""
+    if cls is None:
+        return fn.body
+    stable = init_only_attrs(cls)
+    body = list(fn.body)
+    for idx, s in enumerate(list(body)):
+        if isinstance(s, ast.Assign) and len(s.targets) == 1 and isinstance(s.targets[0], ast.Name) and isinstance(s.value, ast.Attribute) \
+                and isinstance(s.value.value, ast.Name) and s.value.value.id == 'self' and s.value.attr in stable:
+            name = s.targets[0].id
+            stores = [n for n in ast.walk(fn) if isinstance(n, ast.Name) and n.id == name and not isinstance(n.ctx, ast.Load)]
+            params = [a.arg for a in fn.args.args + fn.args.kwonlyargs] + [a.arg for a in (fn.args.vararg, fn.args.kwarg) if a]
+            pos = body.index(s)
+            used_before = any(isinstance(n, ast.Name) and n.id == name for t in body[:pos] for n in ast.walk(t))
+            if len(stores) == 1 and name not in params and not used_before:
+                sub = _Subst(name, s.value.attr)
+                body = [ast.fix_missing_locations(sub.visit(t)) for t in body[:pos] + body[pos + 1:]]
+    return body
+
+
+def helper_body(cx, s):
+    """`self._helper()` with a straight-line private helper of the same class -> its statements, else None"""
+    if cx.cls is None or cx.inlining or not (isinstance(s, ast.Expr) and isinstance(s.value, ast.Call)):
+        return None
+    c = s.value
+    if c.args or c.keywords or not (isinstance(c.func, ast.Attribute) and isinstance(c.func.value, ast.Name) and c.func.value.id == 'self'):
+        return None
+    name = c.func.attr
+    if not name.startswith('_') or name.startswith('__'):
+        return None
+    defs = [f for f in cx.cls.body if isinstance(f, ast.FunctionDef) and f.name == name]
+    if len(defs) != 1:
+        return None
+    f = defs[0]
+    a = f.args
+    if [x.arg for x in a.args] != ['self'] or a.vararg or a.kwarg or a.kwonlyargs or f.decorator_list:
+        return None
+    body = body_of(f)
+    if not body or not all(isinstance(t, (ast.Expr, ast.Assign)) for t in body):
+        return None
+    return body
 
 
 def action(s, cx):
@@ -134,8 +222,31 @@ def block(stmts, cx, tail):
     """statement list -> Lean `Skel` term.  `tail`: nothing of the function follows this block"""
     items = []
     stmts = [s for s in stmts if not (isinstance(s, ast.Expr) and isinstance(s.value, ast.Constant)) and not isinstance(s, ast.Pass)]
+    expanded = []
+    for s in stmts:                                             # private straight-line helpers are inlined, once
+        hb = helper_body(cx, s)
+        if hb is not None and action(s, cx) is None:
+            expanded.append(('helper', hb))
+        else:
+            expanded.append(('stmt', s))
+    flat = []
+    for kind, x in expanded:
+        if kind == 'stmt':
+            flat.append((x, False))
+        else:
+            flat.extend((t, True) for t in x)
+    stmts = [t for t, _ in flat]
+    from_helper = [h for _, h in flat]
     for idx, s in enumerate(stmts):
         last = idx == len(stmts) - 1
+        if from_helper[idx]:
+            # a helper has no parameters of its own and is not inlined further: only parameter-free actions can be recognised
+            saved = cx.params, cx.inlining
+            cx.params, cx.inlining = [], True
+            a = action(s, cx) if isinstance(s, (ast.Expr, ast.Assign)) else None
+            cx.params, cx.inlining = saved
+            items.append(('act', a) if a is not None else ('unknown', None))
+            continue
         if isinstance(s, ast.Assign) and len(s.targets) == 1 and isinstance(s.targets[0], ast.Name) and ast.unparse(s.value) == 'self._now()':
             cx.now.add(s.targets[0].id)                         # pure binding
             continue
@@ -158,6 +269,9 @@ def block(stmts, cx, tail):
             if t == 'self._in_test':
                 items.append(('if', '.ifInTest %s %s' % (block(s.body, cx, False), block(s.orelse, cx, False))))
                 continue
+            if t == 'not self._in_test' and s.orelse:           # `if not c: B else: A` is `if c: A else: B`
+                items.append(('if', '.ifInTest %s %s' % (block(s.orelse, cx, False), block(s.body, cx, False))))
+                continue
         if isinstance(s, ast.Try) and not s.handlers and not s.orelse and s.finalbody:
             items.append(('try', '.tryFinally %s %s' % (block(s.body, cx, tail and last), block(s.finalbody, cx, False))))
             continue
@@ -177,7 +291,8 @@ def skeleton(tree, cls, name):
     fn = find(tree, cls, name)
     if fn is None:
         return '(.unknown .done)'
-    return block(fn.body, Ctx(fn), True)
+    c = class_of(tree, cls)
+    return block(resolve_aliases(fn, c), Ctx(fn, c), True)
 
 
 def forward_table(tree):
